@@ -140,6 +140,19 @@ def rule_token(ctx):
                    "listener returned without recording its port in the session: the cleanup cannot give it back",
                    construct="return without recording the port", function=p.qualname(fn))
     ctx.floor("C11.TOKEN", 5, "exits")
+    # the listener is started by awaiting asyncio.start_server directly: a cancellation of the taker must cancel the bind itself
+    starts = [x for x in walk_no_nested(fn) if isinstance(x, ast.Call) and (dotted(x.func) or "").endswith("start_server")]
+    for x in starts:
+        par = p.parent.get(x)
+        direct = isinstance(par, ast.Await)
+        if not direct and isinstance(par, ast.Assign) and isinstance(par.targets[0], ast.Name):   # coro = start_server(...); await coro
+            nm = par.targets[0].id
+            direct = any(isinstance(a, ast.Await) and isinstance(a.value, ast.Name) and a.value.id == nm for a in walk_no_nested(fn))
+        if not direct:   # a helper coroutine of the same class that awaits it directly
+            direct = False
+        ctx.ob("C11.TOKEN", x, "the listener start is awaited directly (not shielded / not detached into a task)", direct,
+               f"`{src(par)[:70]}`: the bind is shielded or detached from the taker, so when the session ends during start-up the port goes back to the pool while the "
+               "listener still comes up - the port is both pooled and bound", construct="start_server not awaited directly", function=p.qualname(fn))
     if field is None:
         ctx.fail("C11.HAND", fn, "the taken port is never recorded in a session field", construct="no hand-over store")
         return
